@@ -265,6 +265,13 @@ func runInstance(sh *Shared, fn *ssa.Function, params []int, cfg runCfg) (res In
 	tb := NewTB()
 	ex := &Explorer{}
 	deadline := start.Add(cfg.timeout)
+	// last resort: an instance that neither finishes nor notices its deadline (a hang inside the engine itself) ends the
+	// whole run as inconclusive instead of blocking it
+	hang := time.AfterFunc(cfg.timeout+4*time.Minute, func() {
+		fmt.Printf("INCONCLUSIVE: %s%v: no progress %v after its deadline (engine hang)\n", fn.Name(), params, 4*time.Minute)
+		os.Exit(2)
+	})
+	defer hang.Stop()
 	witnesses := 0
 	ph := &pristineHeap{globals: map[*ssa.Global]*Node{}, initDone: map[*ssa.Package]bool{}}
 	for {
